@@ -139,13 +139,14 @@ def parse_func(mod, name, header, body):
     f = Func(); f.name = name
     toks = lex(header)
     p = P(toks, mod); p.expect('define')
-    while p.peek() in ATTR_WORDS or p.peek() in ('(', ')') and False: p.next()
     while True:
         t = p.peek()
         if t in ATTR_WORDS:
             p.next()
-            if t in ('dereferenceable', 'align') and p.peek() == '(':
+            if t in ('dereferenceable', 'dereferenceable_or_null', 'align') and p.peek() == '(':
                 p.next(); p.next(); p.next()
+            elif t == 'align' and p.peek().isdigit():
+                p.next()
             continue
         break
     f.ret = p.type()
@@ -191,11 +192,11 @@ def mask(n): return (1 << n) - 1
 class Machine:
     def __init__(s, mod):
         s.mod = mod; s.mem = {}; s.brk = 0x10000; s.gaddr = {}; s.natives = {}; s.steps = 0; s.allocs = []; s.undef_reads = 0
-        s.fn_by_addr = {}; s.ub = []
-        for g in mod.globals: s._alloc_global(g)
-        for g in mod.globals: s._init_global(g)
+        s.fn_by_addr = {}; s.ub = []; s.overrides = {}
         for i, fname in enumerate(list(mod.funcs) + sorted(mod.decls)):
             s.gaddr[fname] = 0x1000 + 16 * i; s.fn_by_addr[0x1000 + 16 * i] = fname
+        for g in mod.globals: s._alloc_global(g)
+        for g in mod.globals: s._init_global(g)
 
     def alloc(s, size, align=16):
         s.brk = (s.brk + align - 1) // align * align
@@ -244,6 +245,14 @@ class Machine:
             p.next(); return s.zero(rty)
         if t in ('true', 'false'):
             p.next(); return int(t == 'true')
+        if rty.k == 'int' and t in ('trunc', 'zext', 'sext', 'ptrtoint', 'bitcast'):
+            p.next(); p.expect('('); sty = p.type(); v = s.const(p, sty, env); p.expect('to'); p.type(); p.expect(')')
+            if t == 'sext': v = sext(v, resolve(s.mod, sty).n)
+            return v & mask(rty.n)
+        if rty.k == 'int' and t in ('sub', 'add'):
+            p.next(); p.eat('nuw'); p.eat('nsw'); p.expect('(')
+            aty = p.type(); a = s.const(p, aty, env); p.expect(','); bty = p.type(); b = s.const(p, bty, env); p.expect(')')
+            return ((a - b) if t == 'sub' else (a + b)) & mask(rty.n)
         if rty.k == 'int':
             p.next(); return int(t) & mask(rty.n)
         if rty.k == 'fp':
@@ -299,10 +308,11 @@ class Machine:
         raise EngineLimit('zero ' + repr(ty))
 
     def gep(s, bty, base, idx):
+        idx = [small_int(i) for i in idx]       # a symbolic index forks over 0..64
+        if not isinstance(base, int): raise EngineLimit('symbolic GEP base')
         a = base + sext(idx[0], 64) * sizeof(s.mod, bty)
         ty = resolve(s.mod, bty)
         for i in idx[1:]:
-            if not isinstance(i, int): raise EngineLimit('symbolic GEP index')
             if ty.k == 'struct':
                 a += layout(s.mod, ty)[0][i]; ty = resolve(s.mod, ty.es[i])
             else:
@@ -445,10 +455,17 @@ def run(m, fname, args, depth=0):
             if op == 'switch':
                 ty = p.type(); v = m.const(p, ty, env); p.expect(','); p.expect('label'); default = p.next(); p.expect('[')
                 target = default
-                if not isinstance(v, int): raise EngineLimit('symbolic switch')
+                cases = []
                 while not p.eat(']'):
                     cty = p.type(); cv = m.const(p, cty, env); p.expect(','); p.expect('label'); lb = p.next()
-                    if cv == v: target = lb
+                    cases.append((cv, lb))
+                if isinstance(v, int):
+                    for cv, lb in cases:
+                        if cv == v: target = lb
+                else:   # symbolic scrutinee: one fork per case value, in order
+                    for cv, lb in cases:
+                        if Engine.cur.branch(v == cv):
+                            target = lb; break
                 prev, blk = blk, target; break
             if op == 'unreachable':
                 raise EngineLimit('reached unreachable')
@@ -626,18 +643,24 @@ def cast(m, op, sty, v, dty):
         return from_z3fp(z3.fpFPToFP(RNE, to_z3fp(v, sty.n), fpsort(dty.n)), dty.n)
     raise EngineLimit(op)
 
+def small_int(v, limit=64):
+    """A symbolic length/count becomes concrete by forking over 0..limit (each value is one engine branch)."""
+    if isinstance(v, int): return v
+    for k in range(limit + 1):
+        if Engine.cur.branch(v == k): return k
+    raise EngineLimit(f'symbolic length above {limit}')
+
 def call(m, callee, args, depth):
     name = callee[1:].strip('"')
     if name.startswith('llvm.lifetime') or name.startswith('llvm.dbg') or name.startswith('llvm.assume') or name.startswith('llvm.experimental.noalias'):
         return None
     if name.startswith('llvm.memcpy') or name.startswith('llvm.memmove'):
-        d, s_, n = args[0], args[1], args[2]
-        if not isinstance(n, int): raise EngineLimit('symbolic memcpy length')
+        d, s_, n = args[0], args[1], small_int(args[2])
         bs = [m.readbyte(s_ + i) for i in range(n)]
         for i, b in enumerate(bs): m.mem[d + i] = b
         return None
     if name.startswith('llvm.memset'):
-        d, v, n = args[0], args[1], args[2]
+        d, v, n = args[0], args[1], small_int(args[2])
         for i in range(n): m.mem[d + i] = v
         return None
     if name.startswith('llvm.bswap'):
@@ -654,6 +677,8 @@ def call(m, callee, args, depth):
         cat = z3.Concat(a, b); sh = z3.ZeroExt(n, z3.URem(c, n))
         r = z3.Extract(2 * n - 1, n, cat << sh) if 'fshl' in name else z3.Extract(n - 1, 0, z3.LShR(cat, sh))
         r = z3.simplify(r); return r.as_long() if z3.is_bv_value(r) else r
+    if callee in m.overrides:
+        return m.overrides[callee](m, *args)
     if callee in m.mod.funcs:
         return run(m, callee, args, depth + 1)
     if callee in m.natives:
